@@ -61,6 +61,10 @@ def case_text(c, seed):
         s += "entry %s %s\n" % (e["variant"] or "-", " ".join("%s=%s" % (n, val_str(v)) for n, v in sorted(e["values"].items())))
     for name, off, cnt in c.get("indexes", []):
         s += "index %s %d %d\n" % (name, off, cnt)
+    for name, fr in sorted(c.get("index_free", {}).items()):
+        s += "indexfree %s %s\n" % (name, fr)
+    if c.get("pack_free"):
+        s += "packfree %s\n" % c["pack_free"]
     for f in c.get("finds", []):
         s += "find %s ordered=%d %s\n" % (f["index"], f["ordered"], " ".join("%s=%s" % (n, val_str(v)) for n, v in f["key"]))
     return s + "end\n"
@@ -97,6 +101,10 @@ def parse_replay(path):
             cur["entries"].append(dict(variant=None if t[1] == "-" else t[1], values=vals))
         elif t[0] == "index":
             cur["indexes"].append((t[1], int(t[2]), int(t[3])))
+        elif t[0] == "indexfree":
+            cur.setdefault("index_free", {})[t[1]] = t[2]
+        elif t[0] == "packfree":
+            cur["pack_free"] = t[1]
         elif t[0] == "find":
             cur["finds"].append(dict(index=t[1], ordered=int(t[2].split("=")[1]),
                                      key=[(kv.split("=", 1)[0], parse_val(kv.split("=", 1)[1])) for kv in t[3:]]))
@@ -183,7 +191,8 @@ def expected_dump(c, order=None, final_pos=None):
     out = []
     idxs = c.get("indexes") or [("idx", 0, n)]
     for name, off, cnt in idxs:
-        out.append("index %s store=0 offset=%d count=%d" % (name, off, cnt))
+        fr = c.get("index_free", {}).get(name)
+        out.append("index %s store=0 offset=%d count=%d%s" % (name, off, cnt, (" free=" + fr) if fr and fr.strip("0") else ""))
         for j in range(cnt):
             pos = off + j
             if pos >= n:
